@@ -45,12 +45,13 @@ for p, k, w in known:
     out.append("| %s | %s | %s |" % (p, k, w.replace("|", "/")[:420]))
 out.append("")
 out.append("### 11.5 Seeded regressions (`seeded/<name>/`) and which check catches them\n")
-out.append("| seeded change | property | needs to manifest | detection |")
-out.append("|---|---|---|---|")
+out.append("| seeded change | property | needs to manifest | detection history | last re-check (tools_seed_recheck.py) |")
+out.append("|---|---|---|---|---|")
 for d in sorted(glob.glob(os.path.join(V, "seeded", "*"))):
     m = json.load(open(os.path.join(d, "meta.json")))
-    out.append("| %s | %s | %s | %s |" % (os.path.basename(d), m.get("property"), str(m.get("needs_to_manifest", "")).replace("|", "/")[:260],
-               str(m.get("detection", "")).replace("|", "/")))
+    rc = m.get("recheck") or {}
+    out.append("| %s | %s | %s | %s | %s |" % (os.path.basename(d), m.get("property"), str(m.get("needs_to_manifest", "")).replace("|", "/")[:260],
+               str(m.get("detection", "")).replace("|", "/"), ("%s @ %s" % (rc.get("result"), rc.get("repo_head"))) if rc else "–"))
 out.append("")
 txt = "\n".join(out)
 p = os.path.join(V, "DESIGN.md")
